@@ -21,8 +21,8 @@ RULE = ('cases = generated programs over Blob objects on FileStorage+blob_dir an
         'the blob store, undo, pack removing a blob revision}; distinct by program hash')
 ASSUMPTIONS = ['the storage iterator is trusted as the listing of blob records still present (after undo and pack)',
                'extra files after an undo of a blob creation are not forbidden by the statement']
-BUDGET = {'quick': {'examples': 1000, 'workers': 8},
-          'thorough': {'examples': 15000, 'workers': 16}}
+BUDGET = {'quick': {'examples': 6000, 'workers': 8},
+          'thorough': {'examples': 60000, 'workers': 16}}
 
 DATA = [b'', b'A', b'BB', b'CCC', b'DDDD' * 10, b'E' * 5000]
 
@@ -77,7 +77,8 @@ def tmp_leftovers(blob_dir):
 
 
 class BlobWorld:
-    def __init__(self, kind, d, out):
+    def __init__(self, kind, d, out, prop=None):
+        self.prop = prop or PROPERTY
         import transaction
         import ZODB
         from ZODB.blob import BlobStorage
@@ -124,7 +125,7 @@ class BlobWorld:
         self.snap2 = dict(self.committed)
 
     def fail(self, oracle, kind, msg):
-        self.out.fail((PROPERTY, oracle, kind), msg)
+        self.out.fail((self.prop, oracle, kind), msg)
 
     def close(self):
         for tm in (self.tm, self.tm2):
